@@ -596,6 +596,19 @@ class Exec(BlockEval):
             c = st.value
             if isinstance(c, (ast.Constant, ast.Name)):
                 return
+            if isinstance(c, ast.Yield):
+                # generator function, evaluated eagerly (World.run_function collects the values): `yield x` as a statement
+                out = self.env.get("<yielded>")
+                if out is None:
+                    raise Unknown("yield outside an eagerly evaluated generator function")
+                out.append(self.fold(c.value) if c.value is not None else None)
+                return
+            if isinstance(c, ast.YieldFrom):
+                out = self.env.get("<yielded>")
+                if out is None:
+                    raise Unknown("yield from outside an eagerly evaluated generator function")
+                out.extend(list(self.fold(c.value)))
+                return
             self.fold(c)
         elif isinstance(st, ast.While):
             broke = False
@@ -671,6 +684,20 @@ def _as_load(t: ast.AST) -> ast.AST:
 # ----------------------------------------------------------------------------------------------------------------
 # the world
 # ----------------------------------------------------------------------------------------------------------------
+def _is_generator(fnode: ast.AST) -> bool:
+    if not isinstance(fnode, (ast.FunctionDef, ast.AsyncFunctionDef)):
+        return False
+    todo = list(fnode.body)
+    while todo:
+        n = todo.pop()
+        if isinstance(n, (ast.FunctionDef, ast.AsyncFunctionDef, ast.ClassDef, ast.Lambda)):
+            continue
+        if isinstance(n, (ast.Yield, ast.YieldFrom)):
+            return True
+        todo.extend(ast.iter_child_nodes(n))
+    return False
+
+
 class World:
     def __init__(self, repo: Repo, overrides: Optional[Dict[Tuple[str, str], Callable]] = None, class_overrides: Optional[Dict[str, Callable]] = None, max_steps: int = 200000, func_overrides: Optional[Dict[Tuple[str, str], Callable]] = None):
         self.repo = repo
@@ -1009,6 +1036,15 @@ class World:
                 raise Unknown("call depth")
             if isinstance(fnode, ast.Lambda):
                 return Exec(self, module, env, clsname).fold(fnode.body)
+            if _is_generator(fnode):
+                # a generator function whose yields are all statements: its values are computed at once, in order, and handed
+                # out as a one-shot iterator (the difference from lazy evaluation shows only if the caller edits, between two
+                # items, state the generator reads - not modelled; a yield used as an expression is outside the fragment)
+                env["<yielded>"] = []
+                kind, val = Exec(self, module, env, clsname).run(fnode.body)
+                if kind not in ("return", "fall"):
+                    raise Unknown(f"`{kind}` outside a loop")
+                return iter(env["<yielded>"])
             kind, val = Exec(self, module, env, clsname).run(fnode.body)
             if kind == "return":
                 return val
